@@ -22,7 +22,7 @@ STUBS = ["log_likelihood -> ln L(sorted alleles) (one positive real per unordere
 ASSUMES = ["L(g) > 0; F symbolic in (0,1) or 0; frequencies symbolic > 0 (sum 1), flat, or with the last entry exactly 0",
            "float32 storage of GL modelled as exact reals (the property allows single-precision rounding)"]
 BOUNDS = {"quick": "ploidy x alleles: array path 2x2, 2x3, 3x2, 3x3, 4x2; streaming path 2x2, 2x3, 3x2 (all orderings of the joint probabilities via running-max forks); application level 2x2, 2x3 with 6 --report subsets",
-          "thorough": "streaming path adds 3x3, 2x4, 4x2, 6x2; array path adds 4x3, 3x4; application level adds 3x2, 4x2"}
+          "thorough": "streaming path adds 2x4, 4x2, 6x2; array path adds 3x3, 4x3, 3x4; application level adds 3x2, 4x2"}
 OUTSIDE = "more genotypes; float32 rounding of GL; exact ties decided arbitrarily (both paths use first-maximum)"
 TASKS_PER_CHILD = 2
 
@@ -36,7 +36,8 @@ def configs(tier):
         kern = [(2, 2, True), (2, 3, True), (3, 2, True), (3, 3, False), (4, 2, False)]
         app = [(2, 2), (2, 3)]
     else:
-        kern = [(2, 2, True), (2, 3, True), (3, 2, True), (3, 3, True), (2, 4, True), (4, 2, True), (4, 3, False), (6, 2, True), (3, 4, False)]
+        # (streaming path of ploidy 3 x 3 alleles with symbolic F and f: > 15 min for that configuration alone; its array path stays)
+        kern = [(2, 2, True), (2, 3, True), (3, 2, True), (3, 3, False), (2, 4, True), (4, 2, True), (4, 3, False), (6, 2, True), (3, 4, False)]
         app = [(2, 2), (2, 3), (3, 2), (4, 2)]
     for P, A, stream in kern:
         for inbred in (True, False):
